@@ -72,6 +72,63 @@ fn prefs_with_abort(k: Option<u64>) -> (Preferences, Probe) {
     (p, probe)
 }
 
+/// CPU time of the whole process (all threads), in milliseconds (/proc/self/stat, 100 Hz ticks).
+fn process_cpu_ms() -> u64 {
+    let Ok(s) = std::fs::read_to_string("/proc/self/stat") else { return 0 };
+    // fields after the parenthesised command name
+    let Some(i) = s.rfind(')') else { return 0 };
+    let f: Vec<&str> = s[i + 1..].split_whitespace().collect();
+    // utime and stime are fields 14 and 15 of the line = indices 11 and 12 after the name
+    let ut: u64 = f.get(11).and_then(|x| x.parse().ok()).unwrap_or(0);
+    let st: u64 = f.get(12).and_then(|x| x.parse().ok()).unwrap_or(0);
+    (ut + st) * 10
+}
+
+/// A pooled run whose abort flag is raised from outside once the process has spent `after_cpu_ms`
+/// of CPU in it (a watcher thread; CPU-based so that machine load does not move the instant much).
+/// Returns the result, the polls and the CPU time of ALL threads between the raising of the flag
+/// and the return of the call (this part runs alone, after the parallel parts).
+fn pool_promptness(n: Uint, algo: Algo, threads: usize, after_cpu_ms: u64) -> (Result<String, Panicked>, u64, u64) {
+    use std::sync::atomic::AtomicBool;
+    let mut p = Preferences::default();
+    p.verbosity = Verbosity::Silent;
+    p.threads = Some(threads);
+    let polls = Arc::new(AtomicU64::new(0));
+    let flag = Arc::new(AtomicBool::new(false));
+    let flag_cpu = Arc::new(AtomicU64::new(u64::MAX));
+    let finished = Arc::new(AtomicBool::new(false));
+    let (pl, fl) = (polls.clone(), flag.clone());
+    p.should_abort = Some(Box::new(move || {
+        pl.fetch_add(1, Ordering::SeqCst);
+        fl.load(Ordering::SeqCst)
+    }));
+    let start = process_cpu_ms();
+    let watcher = {
+        let (flag, flag_cpu, finished) = (flag.clone(), flag_cpu.clone(), finished.clone());
+        std::thread::spawn(move || {
+            while !finished.load(Ordering::SeqCst) {
+                let c = process_cpu_ms();
+                if c.saturating_sub(start) >= after_cpu_ms {
+                    flag_cpu.store(c, Ordering::SeqCst);
+                    flag.store(true, Ordering::SeqCst);
+                    break;
+                }
+                std::thread::sleep(std::time::Duration::from_millis(5));
+            }
+        })
+    };
+    let r = guarded(|| match yamaquasi::factor(n, algo, &p) {
+        Ok(v) => format!("Ok[{}]", v.iter().map(|x| x.to_string()).collect::<Vec<_>>().join("*")),
+        Err(_) => "Err".to_string(),
+    });
+    let end = process_cpu_ms();
+    finished.store(true, Ordering::SeqCst);
+    let _ = watcher.join();
+    let ft = flag_cpu.load(Ordering::SeqCst);
+    let after = if ft == u64::MAX { 0 } else { end.saturating_sub(ft) };
+    (r, polls.load(Ordering::SeqCst), after)
+}
+
 #[derive(Clone)]
 enum Subject {
     Factor(Uint, Algo),
@@ -330,13 +387,49 @@ pub fn run(ctx: &Ctx) -> Report {
             ("cpu_ms_unaborted", J::from(b.cpu_total_ns / 1_000_000)),
         ]));
     }
+    // ---- pooled runs (sequential section: nothing else consumes CPU in this process now):
+    // inputs the method does not split, abort flag raised from outside, 2 and 4 threads. All threads
+    // together may finish the work item they are in, not the rest of the batch.
+    {
+        let u = |s: &str| Uint::from_str(s).unwrap();
+        // two 100-bit primes (reference primality test): out of reach of ECM curves of this level
+        let p1 = crate::refmodel::next_prime_w(&(crate::refmodel::W::ONE << 99));
+        let p2 = crate::refmodel::next_prime_w(&((crate::refmodel::W::ONE << 100) - (crate::refmodel::W::ONE << 97)));
+        let hard: Uint = crate::refmodel::w_to(&(p1 * p2));
+        let n110 = u("649037107316859236188233584869853");
+        let mut pooled = vec![];
+        for (n, a, th, k, name) in [(hard, Algo::Ecm, 2usize, 3000u64, "200-bit, Ecm"), (hard, Algo::Ecm, 4, 6000, "200-bit, Ecm"), (hard, Algo::Auto, 2, 3000, "200-bit, Auto")] {
+            let (r, polls, cpu_after) = pool_promptness(n, a, th, k);
+            rep.states += 1;
+            rep.evaluations += 1;
+            rep.transitions += polls;
+            pooled.push(J::obj(vec![("subject", J::s(name)), ("threads", J::from(th)), ("abort_after_cpu_ms", J::from(k)), ("cpu_ms_all_threads_after_abort", J::from(cpu_after)), ("polls", J::from(polls))]));
+            match r {
+                Err(p) => rep.violation(
+                    format!("algo={};pool={};profile={};what=panic;site={}", algo_name(a), th, ctx.profile, p.site),
+                    format!("factor({}, {}) with {} threads and abort raised after {} ms of CPU: panic {}", name, algo_name(a), th, k, p.short()),
+                    J::obj(vec![("n", J::s(n)), ("threads", J::from(th)), ("abort_from_poll", J::from(k))]),
+                ),
+                Ok(_) => {
+                    if cpu_after > 2_500 {
+                        rep.violation(
+                            format!("algo={};pool={};what=slow-abort", algo_name(a), th),
+                            format!("factor({}, {}) with {} threads and abort raised after {} ms of CPU: {:.1} s of CPU (all threads) between the signal and the return; bound 2.5 s (a work item at that level takes about 0.07 s per thread)", name, algo_name(a), th, k, cpu_after as f64 / 1000.0),
+                            J::obj(vec![("n", J::s(n)), ("threads", J::from(th)), ("abort_from_poll", J::from(k))]),
+                        );
+                    }
+                }
+            }
+        }
+        rep.set("pooled_runs", J::A(pooled));
+    }
     rep.nontrivial = outcomes.len() as u64;
     for j in per_subject.iter().take(6) {
         rep.sample(j.clone());
     }
     rep.set("subjects", J::A(per_subject));
     rep.set("max_cpu_ms_after_abort", J::from(max_cpu_after_ms));
-    rep.rule = "Sequential part: for each subject (10 selectors x 40-/64-bit/3-factor inputs, the polling selectors on 90/98/110-bit inputs, classgroup on 4 discriminants) the unaborted run is executed once with a counting predicate (N polls); then for EVERY k in [0,N] the run is repeated with a predicate answering true from its k-th call on. states = (subject,k) instants, transitions = polls executed, every run is a trace on the implementation. Oracle: no panic; Ok(list with product n, sorted, no 0/1) or Err / None; after the first true answer: relations published <= half a complete run, thread CPU time <= max(1s, 3x complete run), further polls <= N+20000 (every pending work item polls once and returns). distinct_nontrivial = distinct (subject, result) pairs.".into();
+    rep.rule = "Sequential part: for each subject (10 selectors x 40-/64-bit/3-factor inputs, the polling selectors on 90/98/110-bit inputs, classgroup on 4 discriminants) the unaborted run is executed once with a counting predicate (N polls); then for EVERY k in [0,N] the run is repeated with a predicate answering true from its k-th call on. states = (subject,k) instants, transitions = polls executed, every run is a trace on the implementation. Oracle: no panic; Ok(list with product n, sorted, no 0/1) or Err / None; after the first true answer: relations published <= half a complete run, thread CPU time <= max(1s, 3x complete run), further polls <= N+20000 (every pending work item polls once and returns). distinct_nontrivial = distinct (subject, result) pairs. Pooled runs (2 and 4 threads, ECM / SIQS / automatic mode on inputs they do not split quickly, abort flag raised from outside after 3 s / 6 s of CPU): CPU time of all threads between the signal and the return <= 2.5 s (measured: 0.07-0.6 s).".into();
     rep.assumptions.push("stages that never poll (rho, P-1, ECM128, linear algebra) delay the return by their own duration; this is bounded by the CPU-time oracle only".into());
     rep.assumptions.push("thread CPU time from /proc/thread-self/schedstat".into());
     rep
